@@ -169,6 +169,21 @@ def direct(ctx, entries=None, count=False):
                                    or not torch.allclose(yc, ya, **tol) or not torch.allclose(lc, la, **tol)):
                     ctx.fail('on one instance, a row evaluated after its batch (or the batch evaluated again) gives a different result',
                              {'entry': e.name, 'inverse': inverse, 'x': x.reshape(-1).tolist()[:12]}, match={'class': cls, 'symptom': 'row-dependence-same-instance'})
+                # the batch handed over as a dense non-contiguous tensor (a transposed batch / channels-last image): rows still evaluated alone
+                xn = tcorr.noncontiguous(x)
+                if xn is not None:
+                    kn_, yn, ln = R.impl_call(copy.deepcopy(t), xn, c, inverse)
+                    if kn_ == 'ok':
+                        for i in (0, B - 1):
+                            k1, y1, l1 = R.impl_call(copy.deepcopy(t), x[i:i + 1], c[i:i + 1] if c is not None else None, inverse)
+                            if k1 != 'ok' or not torch.allclose(y1, yn[i:i + 1], **tol) or not torch.allclose(l1, ln[i:i + 1], **tol):
+                                ctx.fail('row %d of a non-contiguous batch differs from evaluating the row alone' % i,
+                                         {'entry': e.name, 'inverse': inverse, 'layout': 'noncontiguous', 'x': x.reshape(-1).tolist()[:12]},
+                                         match={'class': cls, 'symptom': 'row-dependence', 'layout': 'noncontiguous'})
+                                break
+                    else:
+                        ctx.fail('a non-contiguous batch raises %s, the contiguous one does not' % kn_, {'entry': e.name, 'inverse': inverse},
+                                 match={'class': cls, 'symptom': 'raises', 'layout': 'noncontiguous'})
                 perm = torch.randperm(B, generator=gen)
                 kp, yp, lp = R.impl_call(copy.deepcopy(t), x[perm], c[perm] if c is not None else None, inverse)
                 if kp != 'ok' or not torch.allclose(yp, y[perm], **tol) or not torch.allclose(lp, ld[perm], **tol):
